@@ -43,7 +43,7 @@ Definition c06_example : schema :=
     (set_add_props (Some (true, Some (set_all_of [empty_schema] empty_schema))) empty_schema).
 Example C06_bounded_somewhere : bounded 4 c06_example.
 Proof.
-  apply (clean_bounded (finP (fun _ => true)) false {| o_rune_len := fun _ => 0; o_re_ok := fun _ => true; o_re_match := fun _ _ => false;
+  apply (clean_bounded (finP (fun _ => true)) false true {| o_rune_len := fun _ => 0; o_re_ok := fun _ => true; o_re_match := fun _ _ => false;
                                                        o_fmt_known := fun _ => false; o_fmt_check := fun _ _ => true |}).
   apply clean_b_sound. vm_compute. reflexivity.
 Qed.
